@@ -7,7 +7,7 @@ F2 value mapping: 1 -> include only, -1 -> exclude only, same feature index, col
 import ast
 import re
 
-from ..engine.program import AnalysisError, dotted, src, walk_no_nested, call_name
+from ..engine.program import AnalysisError, dotted, src, walk_no_nested, call_name, enclosing_stmt
 from ..engine import flow
 
 LRC = "src/long_read_counter.py"
@@ -255,38 +255,118 @@ def f2(prog, ctx):
         ctx.ok("F2", "%s:%d" % (LRC, d.lineno), "dump writes include then exclude, from the inclusion / exclusion counters")
 
 
+def _iter_base(e, env=None, depth=0):
+    """what a loop ranges over, with sorted()/list()/.keys()/.items()/.values() and single-definition locals peeled off"""
+    while depth < 6:
+        depth += 1
+        if isinstance(e, ast.Call) and isinstance(e.func, ast.Name) and e.func.id in ("sorted", "list", "tuple", "set", "enumerate") and e.args:
+            e = e.args[0]
+        elif isinstance(e, ast.Call) and isinstance(e.func, ast.Attribute) and e.func.attr in ("keys", "items", "values") and not e.args:
+            e = e.func.value
+        elif isinstance(e, ast.Name) and env and e.id in env:
+            e = env[e.id]
+        else:
+            break
+    return src(e)
+
+
 def f3(prog, ctx):
     """dump() visits every (feature, group) cell of the two counters."""
     LRC = "src/long_read_counter.py"
     d = prog.func(LRC, "ProfileFeatureCounter.dump")
+    from ..engine.dataflow import single_def_env
+    env = single_def_env(d)
     loops = [l for l in walk_no_nested(d) if isinstance(l, ast.For)]
-    its = [src(l.iter) for l in loops]
-    groups_def = [s_ for s_ in walk_no_nested(d) if isinstance(s_, ast.Assign) and src(s_.targets[0]) == "all_groups"]
-    ok_groups = groups_def and src(groups_def[0].value) == "sorted(self.group_numeric_ids.keys())"
-    if "self.feature_name_dict.keys()" not in its or "all_groups" not in its or not ok_groups:
-        ctx.fail("F3", d, d._qualname, "loops over %s" % its, "dump() does not iterate every feature of feature_name_dict and every group of "
-                 "group_numeric_ids: a (feature, group) cell with only exclusions (or only inclusions) can be skipped, so grouped "
-                 "counts no longer add up to the ungrouped ones")
+    bases = [_iter_base(l.iter, env) for l in loops]
+    if "self.feature_name_dict" in bases:
+        ctx.ok("F3", "%s:%d" % (LRC, d.lineno), "dump iterates every registered feature")
+    elif any(re.match(r"^self\.\w*(inclusion|exclusion)\w*$", b_) for b_ in bases):
+        ctx.fail("F3", d, d._qualname, "loops over %s" % bases, "dump() iterates the features of ONE of the two counters instead of every registered "
+                 "feature: a feature with only exclusions (or only inclusions) is skipped, so grouped counts no longer add up")
     else:
-        ctx.ok("F3", "%s:%d" % (LRC, d.lineno), "dump iterates all features x all groups")
-    wr = [c for c in walk_no_nested(d) if isinstance(c, ast.Call) and src(c.func) == "f.write" and "%d" in src(c)]
-    if wr:
-        st = wr[0]
-        while not isinstance(st, ast.stmt):
-            st = st._parent
-        facts = [src(t) for t, p in flow.guard_facts(st, stop=d) if p]
-        if facts != ["incl_count > 0 or excl_count > 0"]:
-            ctx.fail("F3", wr[0], d._qualname, "if %s" % facts, "a row is written under another condition than 'include or exclude count positive'")
+        ctx.undecided("F3", d, d._qualname, "no loop over the feature registry (feature_name_dict) found; loops over %s" % bases)
+    if "self.group_numeric_ids" in bases:
+        ctx.ok("F3", "%s:%d" % (LRC, d.lineno), "dump iterates every group of group_numeric_ids")
+    else:
+        # groups taken from the cells themselves: both counters have to contribute (union), not whichever is non-empty
+        def expand(e, depth=0):
+            out = [e]
+            if depth < 5:
+                for x in ast.walk(e):
+                    if isinstance(x, ast.Name) and x.id in env:
+                        out += expand(env[x.id], depth + 1)
+            return out
+        from_cells = None
+        for l in loops:
+            exprs = expand(l.iter)
+            txt = " ".join(src(x) for x in exprs)
+            if re.search(r"self\.\w*(inclusion|exclusion)\w*", txt):
+                from_cells = (l, exprs, txt)
+        if from_cells is not None:
+            l, exprs, txt = from_cells
+            has_incl, has_excl = "inclusion" in txt, "exclusion" in txt
+            either = any(isinstance(x, ast.BoolOp) and isinstance(x.op, ast.Or) for e in exprs for x in ast.walk(e))
+            if not (has_incl and has_excl) or either:
+                ctx.fail("F3", l, d._qualname, "groups from %s" % src(l.iter)[:70], "the groups visited for a feature are taken from %s: a group "
+                         "whose reads only exclude (or only include) the feature is skipped, so grouped counts no longer add up to the "
+                         "ungrouped ones" % ("whichever of the two counters is non-empty" if either else "one of the two counters only"))
+            else:
+                ctx.undecided("F3", l, d._qualname, "groups are taken from both counters in a way the rule cannot follow: %s" % src(l.iter)[:80])
         else:
+            ctx.undecided("F3", d, d._qualname, "no loop over the groups of group_numeric_ids found; loops over %s" % bases)
+    wr = [c for c in walk_no_nested(d) if isinstance(c, ast.Call) and isinstance(c.func, ast.Attribute) and c.func.attr == "write"
+          and "%d" in src(c)]
+    if len(wr) == 1 and isinstance(wr[0].args[0], ast.BinOp) and isinstance(wr[0].args[0].right, ast.Tuple) and len(wr[0].args[0].right.elts) >= 2:
+        counts = [src(e) for e in wr[0].args[0].right.elts[-2:]]
+        st = enclosing_stmt(wr[0])
+        facts = [t for t, pol in flow.guard_facts(st, stop=d) if pol]
+        one_sided = [t for t in facts if sum(1 for cnt in counts if cnt in {src(x) for x in ast.walk(t)}) == 1]
+        both = [t for t in facts if all(cnt in {src(x) for x in ast.walk(t)} for cnt in counts)]
+        if one_sided:
+            ctx.fail("F3", wr[0], d._qualname, "if %s" % src(one_sided[0]), "a row is written only when %s: a (feature, group) cell in which only the "
+                     "other count is positive is dropped (the row must be written when the include OR the exclude count is positive)"
+                     % src(one_sided[0]))
+        elif len(both) == 1 and isinstance(both[0], ast.BoolOp) and isinstance(both[0].op, ast.Or) and all(
+                isinstance(v, ast.Compare) and isinstance(v.ops[0], ast.Gt) and src(v.comparators[0]) == "0" for v in both[0].values):
             ctx.ok("F3", "%s:%d" % (LRC, wr[0].lineno), "row written iff include or exclude count is positive")
-    # every feature seen in either counter is registered in feature_name_dict
-    a = prog.func_inlined(LRC, "ProfileFeatureCounter.add_read_info_from_profile")
-    regs = [s_ for s_ in walk_no_nested(a) if isinstance(s_, ast.Assign) and isinstance(s_.targets[0], ast.Subscript)
-            and src(s_.targets[0].value) == "self.feature_name_dict"]
-    if len(regs) != 2:
-        ctx.fail("F3", a, a._qualname, "feature_name_dict", "features are not registered for both inclusion and exclusion")
+        elif both and isinstance(both[0], ast.BoolOp) and isinstance(both[0].op, ast.And):
+            ctx.fail("F3", wr[0], d._qualname, "if %s" % src(both[0]), "a row is written only when BOTH counts satisfy a condition: cells with only "
+                     "inclusions or only exclusions are dropped")
+        else:
+            ctx.undecided("F3", wr[0], d._qualname, "the condition under which a row is written (%s) is not a test of the two counts"
+                          % [src(t) for t in facts])
     else:
-        ctx.ok("F3", "%s:%d" % (LRC, regs[0].lineno), "feature registered on inclusion and on exclusion")
+        ctx.undecided("F3", d, d._qualname, "the row-writing call of dump() not found")
+    # every feature counted on a path through the profile loop is registered in the feature registry on that path
+    a = prog.func_inlined(LRC, "ProfileFeatureCounter.add_read_info_from_profile")
+    n = 0
+    for lp in [l for l in walk_no_nested(a) if isinstance(l, ast.For) and not flow.enclosing_loops(l)]:
+        for pth in flow.block_paths(lp.body, "profile loop"):
+            counted = registered = None
+            for ev in pth.events:
+                if ev[0] == "cond":
+                    for t, pol in flow.conjuncts(ev[1], ev[2]):
+                        if isinstance(t, ast.Compare) and len(t.ops) == 1 and src(t.comparators[0]) == "self.feature_name_dict" \
+                                and ((isinstance(t.ops[0], ast.In) and pol) or (isinstance(t.ops[0], ast.NotIn) and not pol)):
+                            registered = t
+                elif ev[0] == "stmt":
+                    st = ev[1]
+                    if isinstance(st, ast.Assign) and isinstance(st.targets[0], ast.Subscript) and src(st.targets[0].value) == "self.feature_name_dict":
+                        registered = st
+                    inc = isinstance(st, ast.Expr) and isinstance(st.value, ast.Call) and isinstance(st.value.func, ast.Attribute) \
+                        and st.value.func.attr == "inc" and src(st.value.func.value).startswith("self.")
+                    aug = isinstance(st, ast.AugAssign) and isinstance(st.target, ast.Subscript)
+                    if inc or aug:
+                        counted = st
+            if counted is not None:
+                n += 1
+                if registered is None:
+                    ctx.fail("F3", counted, a._qualname, src(counted)[:80], "on the path [%s] a feature is counted but not registered in "
+                             "feature_name_dict: dump() iterates the registry, so the count is never printed" % pth.describe()[:100])
+                else:
+                    ctx.ok("F3", "%s:%d" % (LRC, counted.lineno), "counted feature is registered on the same path")
+    if n == 0:
+        ctx.undecided("F3", a, a._qualname, "no counting path found in the profile loop")
 
 
 def f4(prog, ctx):
